@@ -172,9 +172,18 @@ func judgeIterated(c *engine.Chooser, k cfg, key string, bits float64) {
 
 // onlyKeys restricts a recording run to the configurations whose key contains one of the comma-separated substrings
 // in VERIF_C18_ONLYKEY (used to calibrate added configurations without re-measuring the others).
-func recordingSkips(key string) bool {
+func recordingSkips(key string) bool { return recordingSkipsID("func/"+key, key) }
+
+// recordingSkipsID: id is the calibration id (<area>/<key>).
+func recordingSkipsID(id, key string) bool {
 	if os.Getenv("VERIF_C18_CALIBRATE") == "" {
 		return false
+	}
+	if os.Getenv("VERIF_C18_NEWONLY") != "" {
+		// only configurations that have no calibration entry yet
+		if _, ok := calibration[id]; ok {
+			return true
+		}
 	}
 	f := os.Getenv("VERIF_C18_ONLYKEY")
 	if f == "" {
